@@ -24,7 +24,8 @@ Dbs == [ d1 |-> [tabs |-> (T :> [cols |-> TabA, rows |-> <<<<IntV(1), sa>>, <<In
                  streams |-> << >>],
          d2 |-> [tabs |-> (T :> [cols |-> TabA, rows |-> <<<<IntV(1), sa>>, <<IntV(2), sa>>, <<IntV(3), Null>>>>])
                           @@ (U :> [cols |-> TabB, rows |-> <<<<sa, IntV(-2147483647), IntV(-32767)>>, <<se2, IntV(2147483647), Null>>>>]),
-                 streams |-> (<<115>> :> "b0102")],
+                 \* "s"; "_" and "ab0": the ends of the packing alphabet as the odd character of a run
+                 streams |-> (<<115>> :> "b0102") @@ (<<95>> :> "b03") @@ (<<97, 98, 48>> :> "b04")],
          d3 |-> [tabs |-> (T :> [cols |-> TabA, rows |-> <<>>]), streams |-> << >>] ]
 
 \* ---- layout choices -------------------------------------------------------
@@ -110,12 +111,12 @@ FInit ==
     /\ cp = (IF i.c.cpid = 0 THEN 65001 ELSE i.c.cpid) /\ summary = ImgSummary
     /\ dirty = [fin |-> FALSE, sum |-> FALSE, pool |-> FALSE]
     /\ dpool = [cp |-> cp, e |-> img.pool] /\ dsum = summary
-    /\ ustreams = Dbs[i.db].streams /\ sess = "open" /\ ptype = "Installer" /\ ro = TRUE
+    /\ ustreams = Dbs[i.db].streams /\ sess = "open" /\ ptype = "Installer" /\ ro = TRUE /\ msync = TRUE
     /\ hist = [path |-> <<>>, last |-> [op |-> "OpenImage", args |-> ImgJ(i, img), res |-> "Ok"]]
 
 FAlphabet ==
   {Ins(T, <<<<IntV(9), sb>>>>), Ins(T, <<<<IntV(2), sa>>>>), Del(T, Eq(K, IntV(1))), Upd(T, <<<<K, IntV(7)>>>>, Eq(K, IntV(2))),
-   Cre(X, TabT), Drp(T),
+   Cre(X, TabT), Ins(X, <<<<IntV(1), sb>>>>), Drp(T),      \* a table created in a foreign database uses ITS reference width
    E("WriteStream", [name |-> <<110>>, data |-> "b07"]),
    E("SetSummary", [field |-> "comments", value |-> StrV(<<99>>)]),
    E("Flush", [x |-> 0]), E("IntoInner", [x |-> 0]), E("Reopen", [x |-> 0])}
